@@ -44,6 +44,9 @@ def materialise(root: Path, recipe: dict[str, Any]) -> None:
         elif isinstance(spec, dict) and "symlink" in spec:
             p.parent.mkdir(parents=True, exist_ok=True)
             os.symlink(spec["symlink"], p)
+        elif isinstance(spec, dict) and spec.get("fifo"):
+            p.parent.mkdir(parents=True, exist_ok=True)
+            os.mkfifo(p)
         else:
             p.parent.mkdir(parents=True, exist_ok=True)
             with open(p, "wb") as fp:
@@ -70,6 +73,8 @@ def snapshot(root: Path, meta: bool = True) -> dict[str, tuple]:
                     ent = ("l", st.st_size, st.st_mode, st.st_mtime_ns, os.readlink(p))
             elif os.path.isdir(p):
                 ent = ("d", 0, st.st_mode if meta else 0, 0, "")
+            elif not os.path.isfile(p):
+                ent = ("special", 0, st.st_mode if meta else 0, 0, "")
             else:
                 with open(p, "rb") as fp:
                     digest = hashlib.sha1(fp.read()).hexdigest()
@@ -93,7 +98,7 @@ def read_tree(root: Path) -> dict[str, bytes]:
     for dirpath, _d, filenames in os.walk(root, followlinks=False):
         for name in filenames:
             p = os.path.join(dirpath, name)
-            if os.path.islink(p):
+            if os.path.islink(p) or not os.path.isfile(p):
                 continue
             with open(p, "rb") as fp:
                 out[os.path.relpath(p, root)] = fp.read()
